@@ -48,6 +48,26 @@ theorem leaves_successor_orbit (s : Schema) (h : s.WF) :
     s.leaves.head? = some s.firstLeaf ∧ Chain (after s) s.leaves none :=
   leaves_are_successor_chain s h
 
+/-- the enumeration order is strictly increasing lexicographic order of the index tuples; in
+particular no leaf occurs twice -/
+theorem leaves_sorted (s : Schema) : s.leaves.Pairwise LexLt ∧ s.leaves.Nodup := by
+  have h := leaves_pairwise s.maxDepth s (Nat.le_refl _)
+  refine ⟨h, h.imp ?_⟩
+  intro a b hab e
+  subst e
+  -- `LexLt` is irreflexive
+  have : ∀ p : List Nat, ¬ LexLt p p := by
+    intro p
+    induction p with
+    | nil => simp [LexLt]
+    | cons i r ih => simp only [LexLt]; rintro (h | ⟨_, h⟩); · omega
+                     · exact ih h
+  exact this a hab
+
+/-- **Conversely**: an index path is among the enumerated leaves exactly when it resolves to a leaf -/
+theorem leaf_iff_enumerated (s : Schema) (p : List Nat) : p ∈ s.leaves ↔ s.at? p = some .leaf :=
+  ⟨mem_leaves_at? p s, at?_leaf_mem p s⟩
+
 /-- the number of leaves equals the leaf count reported by the metadata
 (what `exact_size()` counts down from) -/
 theorem count_eq (s : Schema) : s.leaves.length = s.meta.count := (meta_count s).symm
